@@ -4,6 +4,9 @@ import Hertz.Proofs.ShutdownSpecFull
 import Hertz.Proofs.ShutdownSpecBounded
 import Hertz.Proofs.ShutdownSpecPrompt
 import Hertz.Gen.Shutdown
+import Hertz.Proofs.ShutdownSpin
+import Hertz.Spec.ShutdownArriving
+import Hertz.Gen.ShutdownSpin
 /-!
 # C18 — graceful shutdown lets in-flight requests finish and bounds the wait
 
@@ -583,6 +586,186 @@ theorem spec_still_rejects_others :
 
 end spec
 
+
+/-! ## X18 — the caller's side (`Hertz.Spin`) and requests that are still arriving (`Hertz.Arrive`) -/
+
+section X18
+open Hertz.ShutdownSpec
+
+/-- What the two models of `Model/ShutdownSpin.lean` assume about the source is what the source says (regenerated on
+every run): `Spin` does nothing after the `h.Shutdown(...)` statement and contains no channel receive of its own
+(`Spin.Code.current.waitsRun = false`); the early returns of `Engine.Shutdown` that leave the transport untouched are the
+two `errStatusNotRunning` and the `Deregister` error; `standard.transport.Shutdown` calls no method of the transport but
+`Listener` and `updateActive`, and nothing in `standard/transport.go` sets a deadline or timeout on a connection
+(`Arrive.Code.current.wakeAll = false`); the netpoll transporter hands over to the event loop's `Shutdown`. -/
+theorem spin_model_matches_gen :
+    Hertz.Gen.ShutdownSpin.spinCalls = ["make", "h.initOnRunHooks", "func", "h.Run", "signalWaiter", "h.Engine.Close",
+      "h.Shutdown", "context.Background"] ∧
+    Hertz.Gen.ShutdownSpin.spinReceives = [] ∧
+    Hertz.Gen.ShutdownSpin.spinAfterShutdown = [] ∧
+    Hertz.Spin.Code.current.waitsRun = !Hertz.Gen.ShutdownSpin.spinAfterShutdown.isEmpty ∧
+    Hertz.Gen.ShutdownSpin.spinShutdownStmt = ["if err := h.Shutdown(context.Background()); err != nil",
+      "hlog.SystemLogger().Errorf", "hlog.SystemLogger"] ∧
+    Hertz.Gen.ShutdownSpin.engineShutdownEarlyReturns = [
+      "return errStatusNotRunning @ atomic.LoadUint32(&engine.status) != statusRunning",
+      "return errStatusNotRunning @ !atomic.CompareAndSwapUint32(&engine.status, statusRunning, statusShutdown)",
+      "return err @ err = opt.Registry.Deregister(opt.RegistryInfo); err != nil"] ∧
+    Hertz.Gen.ShutdownSpin.stdShutdownOwnMethods = ["t.Listener", "t.updateActive", "t.updateActive"] ∧
+    Hertz.Gen.ShutdownSpin.stdShutdownConnCalls = [] ∧
+    Hertz.Arrive.Code.current.wakeAll = !Hertz.Gen.ShutdownSpin.stdShutdownConnCalls.isEmpty ∧
+    Hertz.Gen.ShutdownSpin.stdTransportFields = ["readBufferSize", "network", "addr", "keepAliveTimeout",
+      "senseClientDisconnection", "readTimeout", "handler", "tls", "listenConfig", "OnAccept", "OnConnect", "active", "mu", "ln"] ∧
+    Hertz.Gen.ShutdownSpin.npShutdownCalls = ["func", "t.mu.RUnlock", "t.mu.RLock", "t.el.Shutdown"] := by
+  decide +kernel
+
+/-- **spin_returns_bounded.** Every prompt run of `Hertz.Spin` (the main goroutine is not delayed when it can move; the
+`Run` goroutine, its `OnRun` hooks, connections and shutdown hooks are scheduled arbitrarily): once the stop signal has been
+delivered at `sigAt`, `Spin` returns - and the process ends - no later than `sigAt + ExitWaitTimeout`, in EVERY outcome of
+`Shutdown`: nil after the drain, nil at the deadline, the registry's `Deregister` error (returned early, transport not
+closed), `errStatusNotRunning` (signal before `MarkAsRunning`, e.g. during a slow `OnRun` hook).  (The ticker period of
+`transport.Shutdown` is added by `shutdown_bounded`.) -/
+theorem spin_returns_bounded (cfg : Hertz.Spin.Cfg) (acts : List Hertz.Spin.Act) (s : Hertz.Spin.State)
+    (hr : Hertz.Spin.runPrompt .current cfg {} acts = some s) :
+    (∀ t, s.spin = .returned t → t ≤ s.sigAt + cfg.exitWait) ∧ (∀ t, s.spin = .exited t → t ≤ s.sigAt + cfg.exitWait) :=
+  Hertz.Spin.returned_bounded hr
+
+/-- non-vacuity: drain of one connection; failing registry with a connection still in its handler (Spin returns at once,
+listener still open, one connection in its handler: the known finding); signal during the `OnRun` hooks -/
+example : (Hertz.Spin.runPrompt .current { exitWait := 50 } {} [.runInit, .markRunning, .listen, .accept, .advance 7, .signal,
+    .shutEnter, .hooksEnd, .advance 20, .connDone, .drainDone, .shutReturn, .spinPost, .procExit]).map
+    (fun s => (s.spin, s.sigAt, s.lnOpen)) = some (.exited 27, 7, false) := by decide
+example : (Hertz.Spin.runPrompt .current { exitWait := 50, deregFails := true } {} [.runInit, .markRunning, .listen, .accept,
+    .advance 7, .signal, .shutEnter, .hooksEnd, .shutReturn, .spinPost, .procExit]).map
+    (fun s => (s.spin, s.lnOpen, s.active)) = some (.exited 7, true, 1) := by decide
+example : (Hertz.Spin.runPrompt .current { exitWait := 50 } {} [.runInit, .advance 3, .signal, .shutEnter, .spinPost,
+    .procExit, .advance 100]).map (fun s => (s.spin, s.status)) = some (.exited 3, 1) := by decide
+
+/-- … and no phase of `Spin` after the signal can block for ever: each has an enabled step once its timer has fired. -/
+theorem spin_never_stuck (cfg : Hertz.Spin.Cfg) (s : Hertz.Spin.State) :
+    (s.spin = .signalled → (Hertz.Spin.step .current cfg s .shutEnter).isSome) ∧
+    (s.spin = .draining → s.dl ≤ s.now → (Hertz.Spin.step .current cfg s .drainDeadline).isSome) ∧
+    (∀ e, s.spin = .deferred e → s.dl ≤ s.now → (Hertz.Spin.step .current cfg s .shutReturn).isSome) ∧
+    (∀ e, s.spin = .after e → (Hertz.Spin.step .current cfg s .spinPost).isSome) ∧
+    (∀ t, s.spin = .returned t → (Hertz.Spin.step .current cfg s .procExit).isSome) :=
+  Hertz.Spin.never_stuck cfg s
+
+/-- The statement is about the source as it stands: a `Spin` that waits for the result of `Run` after `Shutdown` returned
+(`waitsRun`) is stuck for ever when `Shutdown` returned early without closing the transport - `Run` never returns, the clock
+may run on, the listener stays open and connections are accepted long after the signal (failing registry); after a signal
+during the `OnRun` hooks the server even STARTS to listen and to serve. -/
+theorem spin_waiting_for_run_hangs :
+    (Hertz.Spin.runPrompt { waitsRun := true } { exitWait := 50, deregFails := true } {} [.runInit, .markRunning, .listen,
+      .advance 7, .signal, .shutEnter, .hooksEnd, .shutReturn, .advance 1000000, .accept]).map
+      (fun s => (s.spin, s.lateAccept, (Hertz.Spin.step { waitsRun := true } { exitWait := 50, deregFails := true } s .spinPost).isSome))
+      = some (.after .dereg, some 1000007, false) ∧
+    (Hertz.Spin.runPrompt { waitsRun := true } { exitWait := 50 } {} [.runInit, .advance 3, .signal, .shutEnter,
+      .advance 500, .markRunning, .listen, .advance 1000000, .accept]).map
+      (fun s => (s.spin, s.lateAccept, (Hertz.Spin.step { waitsRun := true } { exitWait := 50 } s .spinPost).isSome))
+      = some (.after .notRunning, some 1000503, false) := by decide
+
+/-- **spin_never_serves_after_signal.** In every prompt run, a connection can be accepted after the stop signal only within
+the exit wait (`now ≤ sigAt + ExitWaitTimeout`: while `Shutdown` drains, or - failing registry - until `Spin` has returned);
+when `Shutdown` found the engine not running (signal before `MarkAsRunning`) no time passes at all between the signal and
+the end of the process, so a server that was not serving at the signal never starts to.  Once the process has exited no
+step but the clock is enabled. -/
+theorem spin_never_serves_after_signal (cfg : Hertz.Spin.Cfg) (acts : List Hertz.Spin.Act) (s : Hertz.Spin.State)
+    (hr : Hertz.Spin.runPrompt .current cfg {} acts = some s) (hsig : s.spin ≠ .waiting)
+    (hacc : (Hertz.Spin.step .current cfg s .accept).isSome = true) :
+    s.now ≤ s.sigAt + cfg.exitWait ∧ (s.ranAtShut = false → s.now = s.sigAt) :=
+  Hertz.Spin.alive_bounded hr hsig (Hertz.Spin.accept_alive hacc)
+
+theorem spin_exit_is_final (code : Hertz.Spin.Code) (cfg : Hertz.Spin.Cfg) (s : Hertz.Spin.State) (t : Nat)
+    (h : s.spin = .exited t) (a : Hertz.Spin.Act) : (∃ d, a = .advance d) ∨ Hertz.Spin.step code cfg s a = none :=
+  Hertz.Spin.exited_final code cfg s t h a
+
+/-- non-vacuity: an accept during the drain is possible for the Run goroutine only before the listener is closed: here the
+signal is delivered, and the accept loop takes one more connection before `Shutdown` is entered -/
+example : (Hertz.Spin.runPrompt .current { exitWait := 50 } {} [.runInit, .markRunning, .listen, .advance 7, .signal, .accept]).map
+    (fun s => (s.spin, s.lateAccept, (Hertz.Spin.step .current { exitWait := 50 } s .accept).isSome)) =
+    some (.signalled, some 7, true) := by decide
+
+/-- **partly_received_request_completes.** Every run of `Hertz.Arrive` for the source as it stands, either transport, any
+number of connections, any interleaving of arrivals, handlers, the shutdown and (netpoll) the closing of idle connections:
+no connection ever has a read deadline set by the shutdown, no request is answered by an error response and none is cut by
+the shutdown (`Good`); and for a connection that has received `k` of the `n` bytes of a request (`reading k n`), as long as
+the process lives (i.e. until the deadline), the rest can arrive, the handler runs and exactly one more complete response is
+written, carrying `Connection: close` iff shutdown has begun, with no error response - whatever the shutdown did before.  If
+the peer never sends the rest, the connection ends with the process (`procExit`, enabled only at the deadline or when every
+connection is closed). -/
+theorem partly_received_request_completes (np : Bool) (W : Nat) (acts : List Hertz.Arrive.Act) (s : Hertz.Arrive.State)
+    (hr : Hertz.Arrive.run .current np W {} acts = some s) (c : Nat) (cn : Hertz.Arrive.Conn) (hc : s.conns[c]? = some cn) :
+    (cn.deadline = none ∧ cn.errs = 0 ∧ cn.cut = false) ∧
+    (∀ k n, cn.ph = .reading k n → k < n → s.exited = false →
+      ∃ s', Hertz.Arrive.run .current np W s [.arrive c (n - k) n, .handlerRet c] = some s' ∧
+        (s'.conns[c]?).map (·.resps) = some (cn.resps ++ [s.shut]) ∧ (s'.conns[c]?).map (·.errs) = some cn.errs) :=
+  ⟨Hertz.Arrive.run_good acts (by simp) hr cn (List.mem_of_getElem? hc),
+   fun k n hp hkn hx => Hertz.Arrive.reading_completes .current np W s c k n cn hc hp hkn hx⟩
+
+/-- non-vacuity: 100 of 4196 bytes received, shutdown begins, the rest arrives, the response is complete and carries close;
+netpoll closes the idle neighbour and leaves the arriving request alone; a peer that never sends the rest is closed with the
+process at the deadline -/
+example : (Hertz.Arrive.run .current true 400 {} [.accept, .accept, .arrive 0 100 4196, .advance 30, .shutBegin, .npCloseIdle 1,
+    .advance 50, .arrive 0 4096 4196, .handlerRet 0]).map (fun s => s.conns) =
+    some [{ ph := .closed, resps := [true] }, { ph := .closed }] := by decide
+example : (Hertz.Arrive.run .current false 400 {} [.accept, .arrive 0 100 4196, .shutBegin, .advance 400, .procExit]).map
+    (fun s => (s.exited, s.conns)) = some (true, [{ ph := .closed }]) := by decide
+example : Hertz.Arrive.run .current false 400 {} [.accept, .arrive 0 100 4196, .shutBegin, .advance 399, .procExit] = none := by decide
+
+/-- The statement is about the source as it stands: a `transport.Shutdown` that sets a read deadline "now" on every tracked
+connection (to wake the idle ones) makes the blocked read of a partly received request fail - 408 instead of the response. -/
+theorem wake_all_breaks_arriving_request :
+    (Hertz.Arrive.run { wakeAll := true } false 400 {} [.accept, .arrive 0 100 4196, .advance 30, .shutBegin, .readTimeout 0]).map
+      (fun s => s.conns) = some [{ ph := .closed, deadline := some 30, errs := 1, cut := true }] := by decide
+
+/-! ### clause ten of the trace specification and the clauses for the process under `Spin` -/
+
+/-- accepted: the rest arrives during the wait and the complete response (with close) is read; the peer never sends the
+rest and the connection stays open until the deadline; a request sent in two parts long before the call -/
+theorem spec_accepts_arriving_request :
+    partlyReceived { exitWait := 400000, tick := 10000, slack := 0, nHooks := 0 }
+      #[⟨.base .L, 0⟩, ⟨.base (.A 0), 5000⟩, ⟨.P 0 0 196 4096, 40000⟩, ⟨.base (.S 0), 70000⟩, ⟨.PZ 0 0, 120000⟩,
+        ⟨.base (.Q 0 0 false), 120100⟩, ⟨.base (.X 0 0 false), 125000⟩, ⟨.base (.R 0 0 true true), 126000⟩, ⟨.base (.E 0), 126100⟩,
+        ⟨.base (.T 0 "nil"), 131000⟩] = [] ∧
+    partlyReceived { exitWait := 250000, tick := 10000, slack := 0, nHooks := 0 }
+      #[⟨.base .L, 0⟩, ⟨.base (.A 0), 5000⟩, ⟨.P 0 0 104 594, 40000⟩, ⟨.base (.S 0), 70000⟩, ⟨.base (.T 0 "nil"), 320000⟩,
+        ⟨.base (.C 0), 372000⟩] = [] ∧
+    partlyReceived { exitWait := 250000, tick := 10000, slack := 0, nHooks := 0 }
+      #[⟨.base .L, 0⟩, ⟨.base (.A 0), 5000⟩, ⟨.P 0 0 104 594, 10000⟩, ⟨.PZ 0 0, 15000⟩, ⟨.base (.Q 0 0 false), 15100⟩,
+        ⟨.base (.X 0 0 false), 15200⟩, ⟨.base (.R 0 0 false true), 15300⟩, ⟨.base (.S 0), 70000⟩, ⟨.base (.T 0 "nil"), 320000⟩] = [] := by
+  decide
+
+/-- still rejected: a 408 / truncated response to the partly received request; no response although the peer completed it
+in time; the server closing the connection before the deadline -/
+theorem spec_still_rejects_cut_arriving_request :
+    partlyReceived { exitWait := 400000, tick := 10000, slack := 0, nHooks := 0 }
+      #[⟨.base .L, 0⟩, ⟨.base (.A 0), 5000⟩, ⟨.P 0 0 196 4096, 40000⟩, ⟨.base (.S 0), 70000⟩, ⟨.base (.T 0 "nil"), 81000⟩,
+        ⟨.PZ 0 0, 120000⟩, ⟨.base (.R 0 0 true false), 120100⟩, ⟨.base (.E 0), 120200⟩] ≠ [] ∧
+    partlyReceived { exitWait := 400000, tick := 10000, slack := 0, nHooks := 0 }
+      #[⟨.base .L, 0⟩, ⟨.base (.A 0), 5000⟩, ⟨.P 0 0 196 4096, 40000⟩, ⟨.base (.S 0), 70000⟩, ⟨.PZ 0 0, 120000⟩,
+        ⟨.base (.F 0 0), 121000⟩] ≠ [] ∧
+    partlyReceived { exitWait := 400000, tick := 10000, slack := 0, nHooks := 0 }
+      #[⟨.base .L, 0⟩, ⟨.base (.A 0), 5000⟩, ⟨.P 0 0 196 4096, 40000⟩, ⟨.base (.S 0), 70000⟩, ⟨.base (.E 0), 71000⟩] ≠ [] := by
+  decide
+
+/-- accepted: drain, failing registry (no request in progress), signal before the engine runs -/
+theorem spec_accepts_spin_outcomes :
+    spinViolations { exitWait := 600000, running := true } [⟨.SIG, 150000⟩, ⟨.R 0 "full", 273000⟩, ⟨.R 1 "full", 274000⟩, ⟨.EXIT "0", 275000⟩] = [] ∧
+    spinViolations { exitWait := 500000, running := true } [⟨.SIG, 120000⟩, ⟨.EXIT "0", 121000⟩] = [] ∧
+    spinViolations { exitWait := 300000, running := false } [⟨.SIG, 80000⟩, ⟨.EXIT "0", 81000⟩] = [] := by
+  decide
+
+/-- still rejected: `Spin` does not return; the process ends late; it is killed by the signal; a request in progress is
+lost; something is served after a signal that came before the engine ran -/
+theorem spec_still_rejects_spin_hang :
+    spinViolations { exitWait := 500000, running := true } [⟨.SIG, 120000⟩, ⟨.LS, 241000⟩, ⟨.EXIT "timeout", 4620000⟩] ≠ [] ∧
+    spinViolations { exitWait := 500000, running := true } [⟨.SIG, 120000⟩, ⟨.EXIT "0", 1700000⟩] ≠ [] ∧
+    spinViolations { exitWait := 500000, running := true } [⟨.SIG, 120000⟩, ⟨.EXIT "signal:terminated", 121000⟩] ≠ [] ∧
+    spinViolations { exitWait := 500000, running := true } [⟨.SIG, 120000⟩, ⟨.EXIT "0", 121000⟩, ⟨.R 0 "none", 121100⟩] ≠ [] ∧
+    spinViolations { exitWait := 300000, running := false } [⟨.SIG, 80000⟩, ⟨.LS, 726000⟩, ⟨.EXIT "0", 900000⟩] ≠ [] := by
+  decide
+
+end X18
+
 /-
 TODO-OPEN (what is proved now, what remains):
  * PROVED (Proofs/ShutdownSpecBase, …Inv, …Refine, …Sched, …Full, …Bounded, …Prompt): `run_satisfies_spec` —
@@ -617,6 +800,24 @@ TODO-OPEN (what is proved now, what remains):
      call has an enabled step once its timer has fired; `CallersDone`/`HooksStarted`/`Settled` are hypotheses here.
      Not proved: "every maximal finite run (whose clock passes `dl`) ends with all callers finished", which needs a
      maximality predicate over `run`.
+
+X18 (caller's side, arriving requests) - TODO-OPEN:
+ * PROVED: `spin_returns_bounded`, `spin_never_stuck`, `spin_never_serves_after_signal`, `spin_exit_is_final`
+   (model `Hertz.Spin`, every prompt run, every outcome of `Shutdown`), `partly_received_request_completes` (model
+   `Hertz.Arrive`, every run, both transports), the two witnesses for the changed code (`spin_waiting_for_run_hangs`,
+   `wake_all_breaks_arriving_request`), `spin_model_matches_gen`, and accept/reject examples for clause ten
+   (`partlyReceived`) and for `spinViolations`.
+ * OPEN
+   - `Hertz.Spin` takes `Engine.Shutdown` at the granularity of its outcomes; it is not proved to be an abstraction of
+     `Hertz.Shutdown.step` (the two models share no state); in particular the bound here is `ExitWaitTimeout`, the
+     ticker period comes from `shutdown_bounded`.
+   - `Hertz.Arrive` is a separate small model too (phases of ONE request per connection by bytes received); the
+     keep-alive loop of `Hertz.Shutdown` is not refined by it.  netpoll's `isIdle` window (bytes in the kernel, poller
+     not yet dispatched) is not modelled: clause ten only judges requests written 10 ms before the call.
+   - "model run of `Hertz.Arrive` / `Hertz.Spin` => clause ten / `spinViolations` empty" is not a theorem (the
+     clauses are evaluated per case on the real server and process).
+   - in-flight requests are LOST when `Deregister` fails (Spin returns with connections in their handlers, see the
+     second non-vacuity example of `spin_returns_bounded`): known finding `dereg-error-skips-drain`.
 -/
 
 end Hertz.Props.C18
